@@ -20,7 +20,7 @@ import (
 
 // C13 — version listings show each version once, flag the true latest, page completely.
 
-var c13Keys = []string{"a", "b", "c/d", "c/e"}
+var c13Keys = []string{"a", "b/x", "b/y", "c", "d"}
 
 type c13Case struct {
 	Ops     []prog.Op `json:"ops"`
@@ -361,7 +361,7 @@ func TestC13(t *testing.T) {
 	runProp(t, propDef{
 		ID:    "C13",
 		Level: "exploration",
-		Rule: "cases = (version history over keys {a,b,c/d,c/e} generated like C05 incl. never-versioned and suspended buckets, prefix, delimiter, max-keys, explicit marker pair); " +
+		Rule: "cases = (version history over keys {a,b/x,b/y,c,d} generated like C05 incl. never-versioned and suspended buckets, prefix, delimiter, max-keys, explicit marker pair); " +
 			"for each history: the unpaginated ListObjectVersions is compared with the version-stack model (every entry once, keys ascending and grouped, one IsLatest per key = what an unqualified read resolves to, Size/ETag, 'null' IDs), " +
 			"then every max-keys from 1 to entries+1 is walked with the markers the server returns and every (key,version) pair of the listing is used as an explicit marker; " +
 			"non-trivial = a listing with >= 2 versions of one key and >= 2 keys, or a truncated page, or a key whose latest entry is a delete marker; distinct by (history, prefix, delimiter, max-keys, marker)",
@@ -373,10 +373,11 @@ func TestC13(t *testing.T) {
 func c13GenOp(rt *rapid.T) prog.Op {
 	op := c05GenOp(rt)
 	remap := func(k string) string {
+		// a < b/x < b/y < c < d: the group rolled up under delimiter '/' has plain keys on both sides
 		if k == "k0" {
-			return rapid.SampledFrom([]string{"a", "c/d"}).Draw(rt, "k0m")
+			return rapid.SampledFrom([]string{"a", "b/x", "c"}).Draw(rt, "k0m")
 		}
-		return rapid.SampledFrom([]string{"b", "c/e"}).Draw(rt, "k1m")
+		return rapid.SampledFrom([]string{"b/y", "c", "d"}).Draw(rt, "k1m")
 	}
 	if op.Key != "" {
 		op.Key = remap(op.Key)
@@ -428,12 +429,14 @@ func c13Run(t *testing.T, c *evid.Collector) {
 		hs := [][]prog.Op{
 			{p("a", "1"), p("b", "2")},
 			{en, p("a", "1")},
-			{en, p("a", "1"), p("a", "22"), p("b", "3"), d("b"), p("c/d", "4"), p("c/d", "55"), p("c/e", "6")},
+			{en, p("a", "1"), p("a", "22"), p("d", "3"), d("d"), p("b/x", "4"), p("b/x", "55"), p("b/y", "6")},
+			{en, p("c", "old"), p("a", "1"), p("b/x", "2"), p("b/y", "3"), p("c", "new"), p("c", "newer"), p("d", "4")},
+			{en, p("a", "1"), p("b/x", "2"), p("c", "after the group only"), p("c", "twice")},
 			{p("a", "0"), en, p("a", "1"), d("a"), p("b", "x"), su, p("b", "y"), d("a")},
 			{en, p("a", "1"), p("a", "2"), p("a", "3"), {K: "delver", B: "bk0", Key: "a", Ref: -1}, p("b", "1")},
 		}
 		for _, h := range hs {
-			for _, pd := range [][2]string{{"", ""}, {"", "/"}, {"c/", "/"}, {"a", ""}, {"c", ""}} {
+			for _, pd := range [][2]string{{"", ""}, {"", "/"}, {"b/", "/"}, {"a", ""}, {"b", ""}} {
 				for mk := 0; mk <= 9; mk++ {
 					cs := c13Case{Ops: h, Prefix: pd[0], Delim: pd[1], MaxKeys: mk, MarkerIdx: mk - 1}
 					ds, info := c13Exec(cs)
@@ -451,7 +454,7 @@ func c13Run(t *testing.T, c *evid.Collector) {
 		for i := 0; i < n; i++ {
 			ops = append(ops, c13GenOp(rt))
 		}
-		pd := rapid.SampledFrom([][2]string{{"", ""}, {"", ""}, {"", "/"}, {"c/", "/"}, {"c", ""}, {"a", ""}, {"b", "/"}, {"c/d", ""}}).Draw(rt, "pd")
+		pd := rapid.SampledFrom([][2]string{{"", ""}, {"", ""}, {"", "/"}, {"", "/"}, {"b/", "/"}, {"b", ""}, {"a", ""}, {"b", "/"}, {"c", "/"}, {"b/x", ""}}).Draw(rt, "pd")
 		base := c13Case{Ops: ops, Prefix: pd[0], Delim: pd[1], MarkerIdx: -1}
 		ds, info := c13Exec(base)
 		if record(base, ds, info, "random") {
